@@ -12,9 +12,24 @@ def create_build_finer_grid_fun(epsilon: float, maturity: float):
         return jump_times, fines_states_values, coarse_states_values
 
     def _build_finer_grid(self, jump_times, fines_states_values, coarse_states_values):
+        # the maturity is appended as a last point, and removed before returning, so that the time between the last
+        # jump (or the start, for a path without jump) and the maturity is refined as well
+        if jump_times.size:
+            last_fine = fines_states_values[..., -1:]
+            last_coarse = coarse_states_values[..., -1:]
+        else:
+            last_fine = np.zeros(fines_states_values.shape[:-1] + (1,))
+            last_coarse = np.zeros(coarse_states_values.shape[:-1] + (1,))
+        jump_times = np.append(jump_times, maturity)
+        fines_states_values = np.append(fines_states_values, last_fine, axis=-1)
+        coarse_states_values = np.append(coarse_states_values, last_coarse, axis=-1)
         dts = np.concatenate(([jump_times[0]], np.diff(jump_times)))
         if not any(dts > epsilon):
-            return jump_times, fines_states_values, coarse_states_values
+            return (
+                jump_times[:-1],
+                fines_states_values[..., :-1],
+                coarse_states_values[..., :-1],
+            )
         else:
             positions = np.nonzero(dts > epsilon)[0]
             aug_fine_js = fines_states_values
@@ -38,6 +53,6 @@ def create_build_finer_grid_fun(epsilon: float, maturity: float):
                 positions = np.nonzero(aug_dts > epsilon)[0]
             aug_jump_times = np.cumsum(aug_dts)
 
-            return aug_jump_times, aug_fine_js, aug_coarse_js
+            return aug_jump_times[:-1], aug_fine_js[..., :-1], aug_coarse_js[..., :-1]
 
     return _build_finer_grid_default if epsilon >= maturity else _build_finer_grid
